@@ -67,11 +67,14 @@ def oracle(ctx, st, case, r, safety_only=False):
         if a is None or p is None:
             ctx.fail(f"{at}: read()/read_us() is not a finite float", label, "floats", get, key="servo-nonfloat")
             return False
-        if not (S.le(mina, a, sa) and S.le(a, maxa, sa)):
-            ctx.fail(f"{at}: angle outside its configured bounds", label, f"{float(mina)} <= angle <= {float(maxa)}", float(a), key="servo-angle-bounds")
+        # "angle and pulse stay within their bounds" are EXACT inequalities on the binary64 values the object holds
+        # (no tolerance; one ulp above max is outside).  Generated calibrations are inside the guard top_exact
+        # (finding F-C19-servo-bound-ulp covers the others)
+        if not (mina <= a <= maxa):
+            ctx.fail(f"{at}: angle outside its configured bounds", label, f"{float(mina)!r} <= angle <= {float(maxa)!r} (exact)", repr(float(a)), key="servo-angle-bounds")
             return False
-        if not (S.le(minp, p, sp) and S.le(p, maxp, sp)):
-            ctx.fail(f"{at}: pulse outside its configured bounds", label, f"{float(minp)} <= pulse <= {float(maxp)}", float(p), key="servo-pulse-bounds")
+        if not (minp <= p <= maxp):
+            ctx.fail(f"{at}: pulse outside its configured bounds", label, f"{float(minp)!r} <= pulse <= {float(maxp)!r} (exact)", repr(float(p)), key="servo-pulse-bounds")
             return False
         want_p = minp + (a - mina) / (maxa - mina) * (maxp - minp)
         want_a = mina + (p - minp) / (maxp - minp) * (maxa - mina)
@@ -103,7 +106,7 @@ def oracle(ctx, st, case, r, safety_only=False):
             lo, hi, g = (mina, maxa, "read") if op[0] == "write" else (minp, maxp, "read_us")
             if v is not None and lo <= v <= hi:
                 got = S.fval(rs["get"][g])
-                if rs["res"] != "ok" or not S.close(got, v):
+                if rs["res"] != "ok" or got != v:          # the commanded coordinate is stored as given: exact
                     ctx.fail(f"{at}: {g}() after {op[0]}({S.show(op[1])}) with an in-range argument does not return it", label,
                              float(v), {"outcome": [rs["res"], rs["ret"]], g: float(got)}, key="servo-roundtrip")
                     return
@@ -190,6 +193,60 @@ DECIMAL_CALIBS = [(Fr(0.1), Fr(179.9), Fr(544.5), Fr(2400.3)), (Fr(-33.3), Fr(66
                   (Fr(0), Fr(180), Fr(0.7), Fr(0.9))]
 
 
+def top_exact(lo, hi):
+    """executable guard of finding F-C19-servo-bound-ulp (Host/ServoFloat.v top_exact): in binary64, lo + (hi - lo) == hi"""
+    lo, hi = float(lo), float(hi)
+    return lo + (hi - lo) == hi
+
+
+def in_guard(bounds):
+    mina, maxa, minp, maxp = bounds
+    return top_exact(mina, maxa) and top_exact(minp, maxp)
+
+
+DECIMAL_CALIBS = [c for c in DECIMAL_CALIBS if in_guard(c)]
+
+# streams whose cases are ALSO run through the binary64 model (Host/ServoFloat.v: sstep_fl) and compared EXACTLY
+FLOAT_STREAMS = {"float-bounds", "random-decimal", "random", "pairs"}
+
+
+def float_bound_cases(ctx):
+    """Calibrations with one-decimal (non-dyadic) bounds inside the guard; writes at both ends of each axis, one ulp inside
+    the ends, at decimal interior points: where the five rounded operations of each map matter for the exact bound clauses."""
+    import math
+    rng = ctx.rng
+    thorough = ctx.tier == "thorough"
+    out, n_out = [], 0
+    want = 1200 if thorough else 150
+    tries = 0
+    while len(out) < want * 2 and tries < 100000:
+        tries += 1
+        mina = round(rng.uniform(-180, 180), rng.choice([0, 1, 1, 2]))
+        maxa = round(mina + rng.choice([0.1, 1, 45.5, 90, 180, 270.3, rng.uniform(0.5, 360)]), rng.choice([0, 1, 1, 2]))
+        minp = round(rng.uniform(0, 1500), rng.choice([0, 1, 1, 2]))
+        maxp = round(minp + rng.choice([0.2, 10, 1000, 1856, 1855.9, rng.uniform(1, 2500)]), rng.choice([0, 1, 1, 2]))
+        if not (mina < maxa and minp < maxp):
+            continue
+        b = (Fr(mina), Fr(maxa), Fr(minp), Fr(maxp))
+        if not in_guard(b):
+            n_out += 1                   # outside the guard: covered by the listed finding, never generated
+            continue
+        ctor = [ABSENT, b[0], b[1], b[2], b[3]]
+        ends = [("write", b[1]), ("write", b[0]), ("write_us", b[3]), ("write_us", b[2]),
+                ("write", Fr(math.nextafter(maxa, mina))), ("write_us", Fr(math.nextafter(maxp, minp))),
+                ("write", Fr(math.nextafter(mina, maxa))), ("write_us", Fr(math.nextafter(minp, maxp)))]
+        out.append(("float-bounds", ("servo", ctor, ends + [("read",), ("read_us",)])))
+        ops = []
+        for _ in range(8):
+            if rng.random() < 0.5:
+                ops.append(("write", Fr(round(rng.uniform(mina, maxa), 1)) if rng.random() < 0.7 else Fr(rng.uniform(mina, maxa))))
+            else:
+                ops.append(("write_us", Fr(round(rng.uniform(minp, maxp), 1)) if rng.random() < 0.7 else Fr(rng.uniform(minp, maxp))))
+        out.append(("float-bounds", ("servo", ctor, ops)))
+    ctx.coverage.setdefault("servo_calibrations_outside_the_guard_not_generated", n_out)
+    return out
+
+
 def as_float_value(q):
     """the binary64 nearest to q, as an exact Fraction"""
     return Fr(q.numerator / q.denominator)
@@ -259,6 +316,7 @@ def generate(ctx):
         for _ in range(rng.randint(40, 120)):
             ops.append(rng.choice(alphabet(cal)))
         cases.append(("random-long", ("servo", ctor, ops)))
+    cases += float_bound_cases(ctx)
     return cases
 
 
@@ -360,14 +418,27 @@ def run_unit(ctx: C.Ctx) -> dict:
         st.bump(st.streams, s)
     impl = S.run_impl("servo", cases)
     exe = ctx.exes.get(UNIT)
-    model = ctx.model([S.wire_case(c) for c in cases], unit=UNIT) if exe else [None] * len(cases)
-    n_dis = 0
-    for case, r, m in zip(cases, impl, model):
+    rational = [i for i, (s, _) in enumerate(stream_cases) if not s.startswith("float-")]
+    binary64 = [i for i, (s, _) in enumerate(stream_cases) if s in FLOAT_STREAMS]
+    model = [None] * len(cases)
+    model_fl = [None] * len(cases)
+    if exe:
+        for i, m in zip(rational, ctx.model([S.wire_case(cases[i]) for i in rational], unit=UNIT)):
+            model[i] = m
+        # the same class with the two maps in binary64 (wire case 4): compared bit for bit, no tolerance
+        for i, m in zip(binary64, ctx.model([[4] + S.wire_case(cases[i])[1:] for i in binary64], unit=UNIT)):
+            model_fl[i] = m
+    n_dis = n_dis_fl = n_exact = 0
+    for case, r, m, mf in zip(cases, impl, model, model_fl):
         S.account(st, case, r)
         oracle(ctx, st, case, r)
         if m is not None and n_dis < 25:
             if not S.compare_case(ctx, st, case, m, r):
                 n_dis += 1
+        if mf is not None and n_dis_fl < 25:
+            n_exact += len(case[2])
+            if not S.compare_case(ctx, st, case, mf, r, exact=True):
+                n_dis_fl += 1
     spec = specials_cases()
     n_spec = 0
     for case, r in zip(spec, S.run_impl("servo", spec, real_sleep=True)):
@@ -383,6 +454,7 @@ def run_unit(ctx: C.Ctx) -> dict:
     dist["specials_stream_ops_implementation_only"] = n_spec
     dist["constructor_calls_with_ieee_special_bounds_compared_with_model_and_judged_by_the_oracle"] = n_x
     dist["fixed_witnesses_replayed_first"] = n_fixed
+    dist["calls_compared_bit_for_bit_with_the_binary64_model"] = n_exact
     return {
         "unit": UNIT,
         "evaluations": st.steps,
